@@ -22,6 +22,7 @@ ASSUMPTIONS = ['well-formed models (DESIGN 4a)', 'reference semantics vp/ref.py'
 CASE_TIMEOUT = 180
 
 FOCUS = ['vec_partial_input_default', 'vec_single_target_multi_source']
+ET_FOCUS = ['mixed_template_overrides']
 
 
 def plan(tier, seed):
@@ -33,6 +34,15 @@ def plan(tier, seed):
     for feat in FOCUS:
         fam = 'probe:' + feat if feat in opened else 'main'
         cases += [{'family': fam, 'cseed': rnd.randrange(1 << 30), 'want': feat} for _ in range(k)]
+    # edge templates: instances of one template form one vectorized edge node shared by all projection groups
+    n_et = 60 if tier == 'quick' else 1500
+    cases += [{'family': 'edge_templates', 'cseed': rnd.randrange(1 << 30)} for _ in range(n_et)]
+    for feat in ET_FOCUS:
+        fam = 'probe:' + feat if feat in opened else 'edge_templates'
+        cases += [{'family': fam, 'cseed': rnd.randrange(1 << 30), 'want': feat} for _ in range(k)]
+    # wide groups: 10-16 nodes of one type (size thresholds of the index-based / matrix edge forms)
+    n_w = 24 if tier == 'quick' else 500
+    cases += [{'family': 'wide', 'cseed': rnd.randrange(1 << 30)} for _ in range(n_w)]
     return cases
 
 
@@ -65,10 +75,15 @@ def vec_risks(spec):
     for s, t, et, a in edge_list:
         sn, so, sv = s.rsplit('/', 2)
         tn, to, tv = t.rsplit('/', 2)
-        bundles.setdefault((node_group[sn], so, sv, node_group[tn], to, tv, bool(a.get('delay'))), []).append((sn, tn))
+        if et:
+            # templated edges: all instances of one edge template form one vectorized edge node whose output projects
+            # to the target variable, whatever the source variable was
+            bundles.setdefault(('edge', et, '', node_group[tn], to, tv, bool(a.get('delay'))), []).append((sn, tn))
+        else:
+            bundles.setdefault((node_group[sn], so, sv, node_group[tn], to, tv, bool(a.get('delay'))), []).append((sn, tn))
     for key, pairs in bundles.items():
         tidx = [t for _, t in pairs]
-        if len(set(tidx)) == 1 and len(tidx) >= 2 and (len(group[key[3]]) > 1 or len(group[key[0]]) > 1):
+        if len(set(tidx)) == 1 and len(tidx) >= 2 and (len(group[key[3]]) > 1 or key[0] == 'edge' or len(group[key[0]]) > 1):
             risk.add('vec_single_target_multi_source')
     # partially driven merged input with a non-zero declared default
     driven = {}
@@ -146,8 +161,12 @@ def make_spec(case, opened):
         rnd = random.Random(case['cseed'])
         want = case.get('want')
         for attempt in range(400):
-            base, _, _ = gen.gen_net(rnd, pool=gen.SAFE_POOL, n_nodes=rnd.choice([2, 3, 4, 5, 6, 8]), max_types=3,
-                                     depth=rnd.choice([0, 0, 0, 1, 2]), same_type_bias=True, n_edges=0)
+            wide = case.get('family') == 'wide'
+            et_mode = case.get('family') == 'edge_templates' or want in ET_FOCUS
+            base, _, _ = gen.gen_net(rnd, pool=gen.SAFE_POOL,
+                                     n_nodes=rnd.choice([11, 12, 13, 14, 16]) if wide else rnd.choice([2, 3, 4, 5, 6, 8]),
+                                     max_types=2 if wide else 3, depth=rnd.choice([0, 0, 0, 1, 2]), same_type_bias=True,
+                                     n_edges=0)
             uniform = rnd.random() < 0.5 if not want else False
             if not uniform and not want:
                 # arbitrary connectivity, typical user convention: input variables default to zero
@@ -157,6 +176,9 @@ def make_spec(case, opened):
                             d[1] = 0.0
             spec = gen.individualize(base, rnd, params=rnd.choice(['different', 'different', 'equal']))
             spec = add_edges(spec, rnd, uniform)
+            if et_mode:
+                spec = gen.add_edge_templates(spec, rnd, frac=rnd.choice([0.3, 0.6, 1.0]),
+                                              mixed_overrides=want == 'mixed_template_overrides')
             f, r = gen.features(spec)
             r2 = (set(r) - {'vec_partial_input_default'}) | vec_risks(spec)
             if want and want not in r2:
